@@ -63,6 +63,8 @@ func runTunnel(r Round) *outcome {
 	}
 	client := &notifyClient{}
 	var onClosed counter
+	var tnRef atomic.Pointer[ctunnel.Tunnel]
+	var statSent, statRecv atomic.Int64
 	var closedReason atomic.Int32
 	closedReason.Store(-1)
 	id := "c16-tunnel"
@@ -71,10 +73,19 @@ func runTunnel(r Round) *outcome {
 		LocalConn: local, TunnelConn: tun, TunnelRWC: rwc, TargetClient: 42,
 		Manager: mgr, Client: client,
 		OnClosed: func(reason ctunnel.CloseReason, err error) {
-			onClosed.hit()
+			if onClosed.hit() == 1 {
+				// what BaseMappingHandler's callback does: this is the only place the tunnel's
+				// traffic totals are handed on
+				if st := tnRef.Load(); st != nil {
+					s := st.GetStats()
+					statSent.Store(s.BytesSent)
+					statRecv.Store(s.BytesRecv)
+				}
+			}
 			closedReason.Store(int32(reason))
 		},
 	})
+	tnRef.Store(tn)
 	if err := mgr.RegisterTunnel(tn); err != nil {
 		o.skipped = true
 		return o
@@ -173,6 +184,15 @@ func runTunnel(r Round) *outcome {
 		o.failf("C16/client-tunnel/close-notify-sent-"+times(n), "SendTunnelCloseNotify called %d times for one tunnel", n)
 	} else if n == 1 && role != ctunnel.TunnelRoleListen {
 		o.failf("C16/client-tunnel/close-notify-from-target-role", "target-role tunnel sent a close notification")
+	}
+	// traffic totals: reported once, i.e. the totals handed to OnClosed are the bytes copied
+	if onClosed.get() == 1 {
+		wantSent, wantRecv := tun.BytesWritten(), local.BytesWritten()
+		if gs, gr := statSent.Load(), statRecv.Load(); gs != wantSent || gr != wantRecv {
+			o.failf("C16/client-tunnel/traffic-totals-not-final-at-OnClosed",
+				"OnClosed (reason %s) saw stats sent=%d recv=%d, the tunnel copied sent=%d recv=%d: runDataCopy adds its byte counts only after the copy ends, a Close from outside invokes OnClosed before that",
+				ctunnel.CloseReason(closedReason.Load()), gs, gr, wantSent, wantRecv)
+		}
 	}
 	if !local.IsClosed() || !tun.IsClosed() {
 		o.failf("C16/client-tunnel/conn-left-open", "local closed=%v tunnel closed=%v after Close", local.IsClosed(), tun.IsClosed())
